@@ -268,6 +268,31 @@ def _lead_dim(v):
     return dims.pop() if len(dims) == 1 else None
 
 
+_API_SNAPSHOT = None
+
+
+def _is_new_param(fi, name):
+    """True if the function existed at the pinned commit and did not have this parameter then"""
+    global _API_SNAPSHOT
+    if _API_SNAPSHOT is None:
+        import json
+        import os
+        try:
+            with open(os.path.join(os.path.dirname(os.path.abspath(__file__)), "api_snapshot.json")) as fh:
+                _API_SNAPSHOT = json.load(fh)
+        except Exception:
+            _API_SNAPSHOT = {}
+    known = _API_SNAPSHOT.get(getattr(fi, "qualname", None))
+    return known is not None and name not in known["params"]
+
+
+def _documented_not_none(fi, name):
+    """True if, at the pinned commit, the parameter existed and its default was not None (the documented calls pass a value)"""
+    _is_new_param(fi, name)
+    known = _API_SNAPSHOT.get(getattr(fi, "qualname", None))
+    return known is not None and name in known["params"] and name not in known["none_default"]
+
+
 def _is_static(node):
     return any(isinstance(d, ast.Name) and d.id == "staticmethod" for d in getattr(node, "decorator_list", []))
 
@@ -327,6 +352,15 @@ class Interp:
     def run(self, fi: FuncInfo, args=None, kwargs=None):
         st = State()
         self._bind_params(fi, st, args or [], kwargs or {}, top=True)
+        # documented calls pass a value for every parameter whose default was not None at the pinned commit: a later change of such a
+        # default to None ("use the configured value") opens no new case for the properties
+        a_ = fi.node.args if not isinstance(fi.node, ast.Lambda) else None
+        if a_ is not None:
+            for x_ in a_.posonlyargs + a_.args + a_.kwonlyargs:
+                nm = x_.arg
+                v_ = st.env.get(nm)
+                if nm not in self.assumptions and isinstance(v_, Form) and v_.sym_name() == nm and _documented_not_none(fi, nm):
+                    st.facts.none.setdefault(v_.key(), False)
         self._seed_facts(st)
         outs = self._exec_function(fi, st, depth=0)
         self.outcomes = outs
@@ -388,6 +422,10 @@ class Interp:
             elif nm in kwargs:
                 st.env[nm] = kwargs[nm]
                 used_kw.add(nm)
+            elif top and defaults[i] is not None and _is_new_param(fi, nm) and nm not in self.param_values and nm not in self.param_classes and nm not in self.assumptions:
+                # a parameter the documented API (snapshot of the pinned commit) does not have: an option added later.  The
+                # properties are stated for the calls that existed before it did, so it keeps its default (like keyword-only options)
+                st.env[nm] = self._eval_default(fi, defaults[i])
             elif top:
                 st.env[nm] = self._top_param(fi, nm, defaults[i])
             elif defaults[i] is not None:
@@ -1397,12 +1435,21 @@ class Interp:
         if isinstance(v, SliceV):
             return True if "slice" in classes else (None if unknown else False)
         if isinstance(v, Form):
+            if v.const_value() is not None:
+                # a known number: its own type decides (facts recorded by earlier isinstance tests say nothing more)
+                c = v.const_value()
+                tn = "complex" if c[1] != 0 else ("int" if c[0].denominator == 1 else "float")
+                return True if any(c_ in classes for c_ in _TOWER[tn]) else (None if unknown else False)
             k = v.key()
             inst = st.facts.inst.get(k)
             if inst is not None:
                 for c in inst:
                     mro = self._mro_names(c) if c in SIGNAL_CLASSES else [c]
                     if any(cc.split(".")[-1] in mro for cc in classes):
+                        return True
+                    if c in _TOWER and any(cc in _TOWER[c] for cc in classes):
+                        return True          # an int is a numbers.Integral / Real / Number ...
+                    if c == "bool" and any(cc in _TOWER["int"] for cc in classes):
                         return True
                 if all(c in SIGNAL_CLASSES for c in inst) or True:
                     if not unknown:
@@ -1582,7 +1629,9 @@ class Interp:
                     return Form.sym("gv")
             if nm == "gv":
                 return mk_attr(Form.sym("gv"), ".".join(parts[3:])) if len(parts) > 3 else Form.sym("gv")
-        if dotted in _BUILTIN_TYPES or dotted in ("numpy.ndarray", "numpy.float64", "numpy.uint8", "numpy.integer", "numpy.floating"):
+        if dotted in _BUILTIN_TYPES or dotted in ("numpy.ndarray", "numpy.float64", "numpy.uint8", "numpy.integer", "numpy.floating", "numpy.number", "numpy.generic",
+                                                  "numpy.bool_", "numpy.str_", "numpy.complexfloating", "numpy.signedinteger", "numpy.unsignedinteger", "numpy.inexact") \
+                or (dotted.startswith("numbers.") and dotted.count(".") == 1) or dotted.startswith("collections.abc."):
             return ClassRef(dotted)
         return Form.atom(("c", dotted))
 
